@@ -46,6 +46,9 @@ var witnesses = []witness{
 	{name: "finding-const-cast-shared", defect: "const_cast_shared", nzArg: -1, tys: []*Ty{tUint(8)},
 		src: "package main\nfunc main(a uint8) (uint8, uint8) {\n\treturn uint8(uint2(a) & uint2(3)), a + 3\n}\n",
 		sx:  "( P 0 ( FN 2 ( ( a u8 ) ) ( ( R ( C u8 ( B and ( C u2 ( V a ) ) ( L u2 3 ) ) ) ( B add ( V a ) ( L u8 3 ) ) ) ) ) )"},
+	{name: "finding-const-signed-widening", defect: "const_signed_widening", nzArg: -1, tys: []*Ty{tInt(40)},
+		src: "package main\nfunc main(a int40) (int40, int40) {\n\treturn a & 0xffffffff, a & int40(0xffffffff)\n}\n",
+		sx:  "( P 0 ( FN 2 ( ( a i40 ) ) ( ( R ( B and ( V a ) ( L i40 4294967295 ) ) ( B and ( V a ) ( L i40 4294967295 ) ) ) ) ) )"},
 	{name: "finding-const-left-unsigned", defect: "const_left_unsigned", nzArg: -1, tys: []*Ty{tUint(32)},
 		src: "package main\nfunc main(a uint32) (bool, bool) {\n\treturn 100 < a, a > 100\n}\n",
 		sx:  "( P 0 ( FN 2 ( ( a u32 ) ) ( ( R ( B lt ( L u32 100 ) ( V a ) ) ( B gt ( V a ) ( L u32 100 ) ) ) ) ) )"},
